@@ -139,6 +139,55 @@ theorem improved_monotone_step (cfg : Cfg) (k : K) (ans : Con) (s : St K)
           exact ⟨c, by rw [DD.view_load]; exact hv, Int.le_refl _⟩
   · exact ⟨c, by rw [view_maybeRun_other cfg k ans s k' hk]; exact hv, Int.le_refl _⟩
 
+/-! ## `update_from_tree` -/
+
+/-- `update_from_tree` never searches; with `overwrite=False` or `'improved'` an entry that is
+    present stays present with a score that is not worse, for every key; a missing entry is
+    created. -/
+theorem update_from_tree_monotone (tie : Bool) (ow : Overwrite) (k : K) (new : Con) (s : St K) :
+    (updateFromTree tie ow k new s).searches = s.searches ∧
+    (s.dd.view k = none → (updateFromTree tie ow k new s).dd.view k = some new) ∧
+    (ow ≠ .yes → ∀ k' c, s.dd.view k' = some c →
+      ∃ c', (updateFromTree tie ow k new s).dd.view k' = some c' ∧ c'.score ≤ c.score) := by
+  have hl : ∀ k', (s.dd.load k).view k' = s.dd.view k' := DD.view_load s.dd k
+  refine ⟨?_, ?_, ?_⟩
+  · unfold updateFromTree
+    simp only []
+    cases (s.dd.load k).view k with
+    | none => rfl
+    | some old =>
+      cases ow with
+      | no => rfl
+      | yes => rfl
+      | improved => simp only []; split <;> rfl
+  · intro hv
+    have : (s.dd.load k).view k = none := by rw [hl]; exact hv
+    unfold updateFromTree
+    simp only [this, DD.view_set, if_true]
+  · intro how k' c hv
+    unfold updateFromTree
+    simp only []
+    cases hvk : (s.dd.load k).view k with
+    | none =>
+      have hne : k' ≠ k := by
+        intro e; subst e; rw [hl, hv] at hvk; cases hvk
+      exact ⟨c, by simp only [DD.view_set, hne, if_false, hl]; exact hv, Int.le_refl _⟩
+    | some old =>
+      cases ow with
+      | yes => exact absurd rfl how
+      | no => exact ⟨c, by simp only [hl]; exact hv, Int.le_refl _⟩
+      | improved =>
+        simp only []
+        split
+        · rename_i hb
+          by_cases e : k' = k
+          · subst e
+            have : old = c := by rw [hl, hv] at hvk; exact (Option.some.inj hvk).symm
+            subst this
+            exact ⟨new, by simp [DD.view_set], better_le _ new old hb⟩
+          · exact ⟨c, by simp only [DD.view_set, e, if_false, hl]; exact hv, Int.le_refl _⟩
+        · exact ⟨c, by simp only [hl]; exact hv, Int.le_refl _⟩
+
 /-! ## histories with process restarts -/
 
 /-- every policy in force during the history -/
@@ -146,6 +195,13 @@ def cfgsOf (y : Sys K) (evs : List (Ev K)) : List Cfg :=
   y.cfg :: evs.filterMap fun e => match e with
     | .restart c => some c
     | .query _ _ => none
+    | .update _ _ _ => none
+
+/-- no explicit `update_from_tree(..., overwrite=True)` in the history -/
+def noForcedUpdate (evs : List (Ev K)) : Prop :=
+  ∀ e ∈ evs, match e with
+    | .update ow _ _ => ow ≠ .yes
+    | _ => True
 
 theorem cfgsOf_step_subset (y : Sys K) (e : Ev K) (rest : List (Ev K)) :
     ∀ c ∈ cfgsOf (y.step e).1 rest, c ∈ cfgsOf y (e :: rest) := by
@@ -159,6 +215,9 @@ theorem cfgsOf_step_subset (y : Sys K) (e : Ev K) (rest : List (Ev K)) :
     rcases hc with rfl | hc
     · right; left; rfl
     · right; right; exact hc
+  | update ow k new =>
+    simp only [cfgsOf, Sys.step, List.filterMap_cons, List.mem_cons] at hc ⊢
+    exact hc
 
 /-- the coherence invariant of the two-level dictionary holds along every history -/
 theorem memAgrees_run (y : Sys K) (evs : List (Ev K)) (h : DD.MemAgrees y.st.dd) :
@@ -171,6 +230,7 @@ theorem memAgrees_run (y : Sys K) (evs : List (Ev K)) (h : DD.MemAgrees y.st.dd)
     cases e with
     | query k ans => exact memAgrees_maybeRun _ _ _ _ h
     | restart c => exact DD.memAgrees_reload _
+    | update ow k new => exact memAgrees_updateFromTree _ _ _ _ _ h
 
 theorem disk_isSome_run (y : Sys K) (evs : List (Ev K)) :
     (y.run evs).1.st.dd.disk.isSome = y.st.dd.disk.isSome := by
@@ -182,6 +242,7 @@ theorem disk_isSome_run (y : Sys K) (evs : List (Ev K)) :
     cases e with
     | query k ans => exact disk_isSome_maybeRun _ _ _ _
     | restart c => rfl
+    | update ow k new => exact disk_isSome_updateFromTree _ _ _ _ _
 
 /-- **reload_agrees**: at any point of any history (started by a fresh process) a new process on
     the same directory sees, for every key, exactly the entry the old process would return. -/
@@ -193,11 +254,12 @@ theorem reload_agrees (y : Sys K) (evs : List (Ev K)) (hm : y.st.dd.mem = [])
     intro k c h; rw [hm] at h; simp [assocGet] at h
   · rw [disk_isSome_run]; exact hd
 
-/-- **improved_monotone**: over any history of queries and restarts (any mix of
-    `overwrite=False` / `'improved'`, `cache_only` on or off) on a directory, the entry stored for
-    any key never disappears and its score never gets worse. -/
+/-- **improved_monotone**: over any history of queries, `update_from_tree` calls and restarts
+    (any mix of `overwrite=False` / `'improved'`, `cache_only` on or off) on a directory, the
+    entry stored for any key never disappears and its score never gets worse. -/
 theorem improved_monotone (y : Sys K) (evs : List (Ev K)) (hd : y.st.dd.disk.isSome)
-    (hm : DD.MemAgrees y.st.dd) (hn : ∀ c ∈ cfgsOf y evs, c.overwrite ≠ .yes) (k : K) (c : Con)
+    (hm : DD.MemAgrees y.st.dd) (hn : ∀ c ∈ cfgsOf y evs, c.overwrite ≠ .yes)
+    (hu : noForcedUpdate evs) (k : K) (c : Con)
     (hv : y.st.dd.view k = some c) :
     ∃ c', (y.run evs).1.st.dd.view k = some c' ∧ c'.score ≤ c.score := by
   induction evs generalizing y c with
@@ -206,17 +268,26 @@ theorem improved_monotone (y : Sys K) (evs : List (Ev K)) (hd : y.st.dd.disk.isS
     simp only [Sys.run]
     have hn' : ∀ c ∈ cfgsOf (y.step e).1 rest, c.overwrite ≠ .yes :=
       fun c hc => hn c (cfgsOf_step_subset y e rest c hc)
+    have hu' : noForcedUpdate rest := fun e' he' => hu e' (List.mem_cons_of_mem _ he')
     cases e with
     | query k2 ans =>
       have h0 : y.cfg.overwrite ≠ .yes := hn y.cfg (by simp [cfgsOf])
       obtain ⟨c1, hv1, hle1⟩ := improved_monotone_step y.cfg k2 ans y.st h0 k c hv
       obtain ⟨c2, hv2, hle2⟩ := ih (y.step (.query k2 ans)).1
         (by simp only [Sys.step]; rw [disk_isSome_maybeRun]; exact hd)
-        (memAgrees_maybeRun _ _ _ _ hm) hn' c1 hv1
+        (memAgrees_maybeRun _ _ _ _ hm) hn' hu' c1 hv1
       exact ⟨c2, hv2, Int.le_trans hle2 hle1⟩
     | restart c0 =>
-      exact ih (y.step (.restart c0)).1 hd (DD.memAgrees_reload _) hn' c
+      exact ih (y.step (.restart c0)).1 hd (DD.memAgrees_reload _) hn' hu' c
         (by simp only [Sys.step]; rw [DD.view_reload _ hm hd]; exact hv)
+    | update ow k2 new =>
+      have how : ow ≠ .yes := hu (.update ow k2 new) List.mem_cons_self
+      obtain ⟨c1, hv1, hle1⟩ :=
+        (update_from_tree_monotone y.cfg.tieReplace ow k2 new y.st).2.2 how k c hv
+      obtain ⟨c2, hv2, hle2⟩ := ih (y.step (.update ow k2 new)).1
+        (by simp only [Sys.step]; rw [disk_isSome_updateFromTree]; exact hd)
+        (memAgrees_updateFromTree _ _ _ _ _ hm) hn' hu' c1 hv1
+      exact ⟨c2, hv2, Int.le_trans hle2 hle1⟩
 
 /-- **cache_only_never_searches**: along any history in which every policy has
     `cache_only=True`, the sub-optimizer never runs. -/
@@ -231,6 +302,7 @@ theorem cache_only_never_searches (y : Sys K) (evs : List (Ev K))
     cases e with
     | query k ans => exact (cache_only_step y.cfg k ans y.st (hc y.cfg (by simp [cfgsOf]))).1
     | restart c => rfl
+    | update ow k new => exact (update_from_tree_monotone _ ow k new y.st).1
 
 /-! ## the returned tree is a tree of the queried contraction -/
 
